@@ -13,7 +13,6 @@ INVARIANT InvDenInjective
 INVARIANT InvRefExact
 INVARIANT InvCacheSound
 INVARIANT InvMinFree
-INVARIANT InvDenMap
 INVARIANT InvHeldLive
 PROPERTY HeldSame
 PROPERTY StepContract
